@@ -11,12 +11,15 @@ H1  back-end wiring.  The real PtTebdBackend / PtTebd run on symbolic tensors:
     H1/step_* real PtTebd.compute with generic two-site gates == direct application of
               the gates / process tensors to the joint state; reduced states of site
               subsets consistent under partial trace; norm == total trace.
+    H1/norm_one trace-preserving gates (by construction), unit-trace product state:
+              norm == 1, every reduced state has unit trace.
 H2  completion order within a layer: executors replaced by the Executor.map contract
     (run order = symbolic permutation, results yielded in submission order); parallel
     branch == sequential branch for every permutation.
 H3  the parallel branch is reachable: a FRESH interpreter that imports only oqupy runs
     PtTebd with backend_config['parallel'] (concrete observation, reported through the
-    known-findings protocol); real executors == sequential on a tiny concrete chain.
+    known-findings protocol); after `import concurrent.futures` the real executors ==
+    sequential on a concrete 4-site chain (same subprocess).
 """
 import itertools
 import json
@@ -72,6 +75,7 @@ class OpNn(Case):
     stubs = (STUB_SVD,)
     env = {"noconj": True, "extra": SYM_EXTRA}
     timeout_s = 300
+    first_timeout_s = 60
 
     def __init__(self, n, k, bond, adims, chi, twice=False):
         self.n, self.k, self.bond, self.adims, self.chi, self.twice = n, k, bond, adims, chi, twice
@@ -104,6 +108,7 @@ class OpSitePt(Case):
     stubs = (STUB_SVD,)
     env = {"noconj": True, "extra": SYM_EXTRA}
     timeout_s = 300
+    first_timeout_s = 60
 
     def __init__(self, n, bond, adims, rank):
         self.n, self.bond, self.adims, self.rank = n, bond, adims, rank
@@ -173,6 +178,7 @@ class OpTraces(Case):
     stubs = (STUB_SVD,)
     env = {"noconj": True, "extra": SYM_EXTRA}
     timeout_s = 300
+    first_timeout_s = 60
 
     def __init__(self, n, bond, adims):
         self.n, self.bond, self.adims = n, bond, adims
@@ -257,6 +263,7 @@ class ProdStep(Case):
     stubs = (STUB_SVD, STUB_GATE, "System.get_propagators -> products of the per-site gate factors")
     env = {"noconj": True, "extra": SYM_EXTRA}
     timeout_s = 600
+    first_timeout_s = 60
 
     def __init__(self, n, order, N, kind, ptbond, nopt=()):
         self.n, self.order, self.N, self.kind, self.ptbond, self.nopt = n, order, N, kind, ptbond, tuple(nopt)
@@ -317,6 +324,7 @@ class Step(Case):
     stubs = (STUB_SVD, STUB_GATE)
     env = {"noconj": True, "extra": SYM_EXTRA}
     timeout_s = 900
+    first_timeout_s = 60
 
     def __init__(self, n, order, N, chi, kind, ptbond, nopt=(), ptrank=4):
         self.n, self.order, self.N, self.chi, self.kind, self.ptbond, self.nopt, self.ptrank = n, order, N, chi, kind, ptbond, tuple(nopt), ptrank
@@ -391,6 +399,7 @@ class NormOne(Case):
     stubs = (STUB_SVD, STUB_GATE)
     env = {"noconj": True, "extra": SYM_EXTRA}
     timeout_s = 600
+    first_timeout_s = 60
 
     def __init__(self, n, order, N, kind):
         self.n, self.order, self.N, self.kind = n, order, N, kind
@@ -426,6 +435,7 @@ class Order(Case):
              "pickling outside the claim)")
     env = {"noconj": True, "extra": SYM_EXTRA}
     timeout_s = 300
+    first_timeout_s = 60
 
     def __init__(self, n, mode, bond, chi):
         self.n, self.mode, self.bond, self.chi = n, mode, bond, chi
@@ -469,6 +479,7 @@ class OrderRun(Case):
     stubs = Order.stubs + (STUB_GATE,)
     env = {"noconj": True, "extra": SYM_EXTRA}
     timeout_s = 600
+    first_timeout_s = 60
     max_paths = 300
 
     def __init__(self, n, order, mode, kind="sparse"):
@@ -609,6 +620,6 @@ def cases(tier):
                OpSitePt(4, 2, (1, 2, 1, 1), 3), OpTraces(4, 2, (1, 2, 2, 1)),
                NormOne(3, 1, 2, "perm"), NormOne(4, 2, 1, "perm")]
         cs += [ProdStep(3, 1, 2, "sparse", 2), ProdStep(3, 2, 1, "sparse", 1), ProdStep(4, 1, 2, "perm", 2), ProdStep(3, 2, 2, "perm", 2)]
-        cs += [Step(4, 1, 1, 2, "perm", 1), Step(4, 2, 1, 2, "perm", 1), Step(3, 1, 2, 2, "perm", 2)]
+        cs += [Step(4, 1, 1, 2, "perm", 1), Step(4, 2, 1, 2, "perm", 1), Step(3, 1, 2, 2, "perm", 2, ptrank=3)]
         cs += [Order(4, "multithread", 2, 2), Order(6, "multiprocess", 1, 1), OrderRun(4, 2, "multiprocess", "perm"), OrderRun(5, 1, "multithread", "perm")]
     return cs
